@@ -77,6 +77,10 @@ CHECKS = {
   text="Escaping taint of every string concatenated into a reported path (only separators, literals, integer indexes and escape_path_section(text, own pathsep)); XOR truth table of each match test; complete decision table of Searches.search_anchor over (anchored, seen, search_anchors, include_aliases, matched, inverted) by partial evaluation; outcome class (skip / emit / search) of the search loop per AnchorMatches member for the sequence, map-value, map-key and set branches; duplicate check before recording. None of this code is executed by the baseline. Soundness/completeness over documents and re-resolution are declined.",
   note="Trusted base: escape_path_section's alphabet (C02-D5); search_matches (C12).",
   technique="taint-style composition rule for path text + partial evaluation (decision tables) + truth-table evaluation"),
+ "C08": dict(
+  text="The parser's operator automaton is extracted by partial evaluation of the bracket branch per character and prior state and fed with the symbols that the enums' own __str__ ladders emit (9 search operators, 3 collector operators, 7 keywords): each must be read back as the same member; the stringifier is specialised per segment kind (non-empty text, uniform separator handling); escape agreement between writer and reader per lexical context (key, search term, regex); equality through one forced notation. Text-level round-trip identity over all segment sequences is declined.",
+  note="Trusted base: the parser consumes one character per loop iteration with the flags found by role discovery; Enum member identity.",
+  technique="automaton extraction by partial evaluation compared with the writer's symbol tables; alphabet set comparison; branch-order rule"),
 }
 
 NOT_BUILT = "check not built yet (framework under construction; will be claimed at clause level per DESIGN.md)"
